@@ -1586,7 +1586,14 @@ class Exec:
             if isinstance(a, str):
                 return len(a)
             if isinstance(a, SetVal) and a.elems is not None:
-                raise Unsupported("len(set)")
+                if len(a.elems) > 4:
+                    raise Unsupported("len(set) of more than four explicit elements")
+                # number of distinct values among the explicit elements
+                tot = 0
+                for k, x in enumerate(a.elems):
+                    dup = _or([self.equal(x, y, fr) for y in a.elems[:k]]) if k else False
+                    tot = tot + (0 if dup is True else 1 if dup is False else z3.If(zbool(dup), 0, 1))
+                return simp_int(tot) if is_z3(tot) else tot
             hook = getattr(self.spec, "len_hook", None)
             if hook is not None:
                 return hook(self, fr, a)
